@@ -32,6 +32,20 @@ struct seqx_spec {
 static char seqx_sig[256];
 static char seqx_msg[1024];
 
+/* optional start state: ops applied after init() on every fresh object
+ * (--prefix a,b,c); lets a job explore from a non-initial state */
+static int seqx_prefix[32], seqx_nprefix;
+static void *seqx_fresh(const struct seqx_spec *spec)
+{
+    void *st = spec->init();
+    for (int i = 0; i < seqx_nprefix; i++)
+        if (spec->apply(st, seqx_prefix[i], false) != SEQX_OK) {
+            fprintf(stderr, "seqx: start-state prefix op %d not applicable\n", i);
+            exit(3);
+        }
+    return st;
+}
+
 #define SEQX_FAIL(sig_, ...)                                                   \
     do {                                                                       \
         snprintf(seqx_sig, sizeof(seqx_sig), "%s", sig_);                      \
@@ -94,7 +108,7 @@ static int seqx_parse_hist(const char *s, int *out, int max)
 /* replays a history verbosely, returns SEQX_* of the last op */
 static int seqx_replay(const struct seqx_spec *spec, const int *h, int n)
 {
-    void *st = spec->init();
+    void *st = seqx_fresh(spec);
     int r = SEQX_OK;
     for (int i = 0; i < n; i++) {
         char b[128];
@@ -149,7 +163,7 @@ static int seqx_explore(const struct seqx_spec *spec, int maxdepth,
     char hs[4096];
 
     /* root */
-    void *st = spec->init();
+    void *st = seqx_fresh(spec);
     vbuf_reset(&cb);
     spec->canon(st, &cb);
     vset_add(&r.seen, vhash_bytes(cb.p, cb.n));
@@ -179,7 +193,7 @@ static int seqx_explore(const struct seqx_spec *spec, int maxdepth,
                     seqx_hist_str(spec, hist, n + 1, hs, sizeof(hs), false);
                     v_crash_note(hs);
                 }
-                st = spec->init();
+                st = seqx_fresh(spec);
                 int res = SEQX_OK;
                 for (int i = 0; i < n; i++) {
                     res = spec->apply(st, hist[i], false);
@@ -289,6 +303,8 @@ static int seqx_main(const struct seqx_spec *spec, int argc, char **argv,
             max_states = atoll(argv[++i]);
         else if (!strcmp(argv[i], "--replay") && i + 1 < argc)
             replay = argv[++i];
+        else if (!strcmp(argv[i], "--prefix") && i + 1 < argc)
+            seqx_nprefix = seqx_parse_hist(argv[++i], seqx_prefix, 32);
     }
     setvbuf(stdout, NULL, _IOLBF, 0);
     if (replay) {
